@@ -281,7 +281,10 @@ def run(ctx):  # noqa: C901, PLR0912, PLR0915
             if nm not in ('append', 'extend') or not isinstance(c.func, ast.Attribute):
                 continue
             tgt = unparse(c.func.value)
-            if not (tgt.startswith('proc.') or tgt in ('updates_list', 'dest_list')):
+            # result lists: fields of the TransactionResult (proc.*), lists this function returns, lists that stand for a
+            # TransactionResult field in a loop over (updates, proc.<field>) pairs
+            returned = {unparse(r.value) for r in walk_no_nested(fi.node) if isinstance(r, ast.Return) and r.value is not None}
+            if not (tgt.startswith('proc.') or tgt in returned or tgt == 'dest_list'):
                 continue
             n_app += 1
             arg = c.args[0]
